@@ -102,6 +102,13 @@ void vm_generate(uint64_t seed, unsigned size_class)
 		VM.target[0] = base;
 		VM.total_target = base;
 	}
+	/* engines may pin single parameters of the family (applies to the reference and the core run alike) */
+	const char *f = getenv("VM_FORCE_RNG");
+	if(f)
+		VM.rng_mode = atoi(f);
+	f = getenv("VM_FORCE_MEM");
+	if(f)
+		VM.mem_mode = atoi(f);
 }
 
 void vm_describe(char *buf, size_t n)
